@@ -8,12 +8,10 @@ missing x presorted x a right table that has key fields only; crossjoin over all
 Oracle: nested-loop relational reference (mc/refs/joins.py): header, type-faithful multiset of rows, and
 ascending key order of the output under the independent C04 reference order.
 """
-import collections
 import itertools
 
 import petl as etl
 
-from .. import refmodel as ref
 from .. import spaces
 from ..refs import joins as J
 
